@@ -263,8 +263,8 @@ func GenProject(g G, root string) *Project {
 		}
 		if len(p.Pkgs) > 0 && g.chance(30) {
 			pk := p.Pkgs[g.n(len(p.Pkgs))]
-			st := []int{ImpNamed, ImpSideEffect, ImpUnused, ImpStar}[g.n(4)]
-			if m.Kind == "cjs" {
+			st := []int{ImpNamed, ImpSideEffect, ImpUnused, ImpStar, ImpDynamic}[g.n(5)]
+			if m.Kind == "cjs" && st != ImpDynamic {
 				st = ImpRequire
 			}
 			m.Imports = append(m.Imports, Import{Target: -1, Pkg: pk.Name, Style: st})
